@@ -352,6 +352,64 @@ func (x *run) checkC11() *Failure {
 // checkC11Deps is the part of the order rule that stays unambiguous when
 // constructions overlap: no instance is closed while an instance of the same
 // owner that received it as a dependency is still open.
+// checkC11ChildrenFirst: for every explicit Close of a scope, what the scope itself owns - also an
+// instance whose construction finished while that Close was under way - is closed only after every
+// instance a descendant scope had when the Close began ("all descendant scopes are completely
+// disposed before their parent disposes its own instances"). Instances that arrive in a descendant
+// after the Close began are disposed on arrival, whenever that is, and are not part of the rule.
+func (x *run) checkC11ChildrenFirst() *Failure {
+	for _, o := range x.R.Obs {
+		if o.Kind != "close" || o.Scope <= 0 {
+			continue
+		}
+		sub := x.subtreeOf(o.Scope)
+		var lastBelow int64
+		var lastBelowE *kit.Entry
+		for _, e := range x.containerMade() {
+			if !kit.IsDisposable(e.Impl) || x.M.Regs[e.Reg].Life == kit.Singleton || e.ScopeTag == o.Scope || !sub[e.ScopeTag] {
+				continue
+			}
+			if e.BornSeq == 0 || e.BornSeq > o.StartSeq || e.Inv == nil {
+				continue
+			}
+			// (had when the Close began: the operation that constructed it - same goroutine - had returned)
+			handed := false
+			for _, op := range x.R.Obs {
+				if (op.Goid == 0 || op.Goid == e.Inv.Goid) && op.StartSeq <= e.Inv.StartSeq && op.EndSeq >= e.Inv.EndSeq && op.EndSeq != 0 && op.EndSeq < o.StartSeq {
+					handed = true
+					break
+				}
+			}
+			if !handed {
+				continue
+			}
+			for _, c := range e.CloseSeqs() {
+				if c > o.StartSeq && c > lastBelow {
+					lastBelow, lastBelowE = c, e
+				}
+			}
+		}
+		if lastBelowE == nil {
+			continue
+		}
+		for _, e := range x.containerMade() {
+			if !kit.IsDisposable(e.Impl) || x.M.Regs[e.Reg].Life == kit.Singleton || e.ScopeTag != o.Scope {
+				continue
+			}
+			for _, c := range e.CloseSeqs() {
+				if c > o.StartSeq && c < lastBelow {
+					late := ""
+					if e.BornSeq > o.StartSeq {
+						late = " (its construction finished while the Close was under way)"
+					}
+					return fail("C11", "children-first", "own-instance-before-descendant"+map[bool]string{true: "/late-arrival", false: ""}[late != ""], "close(s%d): %v, owned by the scope itself%s, was closed (seq %d) before %v of descendant scope s%d (seq %d)", o.Scope, e, late, c, lastBelowE, lastBelowE.ScopeTag, lastBelow)
+				}
+			}
+		}
+	}
+	return nil
+}
+
 func (x *run) checkC11Deps() *Failure {
 	owner := func(e *kit.Entry) int {
 		if x.M.Regs[e.Reg].Life == kit.Singleton {
